@@ -121,6 +121,7 @@ type Outcome struct {
 	Panic bool
 	Vals  []Val
 	PVal  *IfaceV
+	Fr    *Frame // the frame that returned (its source-level names are visible to ensures clauses)
 }
 
 type State struct {
